@@ -141,8 +141,8 @@ class Check:
             h = hashlib.sha1(key.encode()).hexdigest()[:10]
             path = os.path.join(REPLAY, "%s-%s.json" % (self.pid, h))
             with open(path, "w") as f:
-                json.dump({"property": self.pid, "key": key, "clause": clause, "record": record}, f, indent=1,
-                          default=str)
+                json.dump({"property": self.pid, "key": key, "clause": clause, "seed": self.seed, "tier": self.tier, "record": record}, f,
+                          indent=1, default=str)
             lines.append("VIOLATION property=%s replay=%s" % (self.pid, path))
             print("  violated clause %s: key=%s" % (clause, key))
         for n in self.notes[:40]:
